@@ -3,4 +3,4 @@ From VF Require Export Sched.Spec.
 From VF Require Export Sched.ProofsAssoc Sched.ProofsBasic Sched.ProofsFrame Sched.ProofsFoot
   Sched.ProofsStreams Sched.ProofsFaithful Sched.ProofsExec Sched.ProofsRoute Sched.ProofsSpec Sched.ProofsPolicy
   Sched.ProofsInv Sched.ProofsRefs Sched.ProofsRefs2 Sched.ProofsInflight
-  Sched.ProofsPrims Sched.ProofsWaiters Sched.ProofsEnabled Sched.ProofsArmed Sched.ProofsAbsorb Sched.ProofsSyncOut.
+  Sched.ProofsPrims Sched.ProofsWaiters Sched.ProofsEnabled Sched.ProofsArmed Sched.ProofsAbsorb Sched.ProofsSyncOut Sched.ProofsTimeouts Sched.ProofsStages.
